@@ -362,6 +362,13 @@ func (a *analysis) oracleC14() verdict {
 		if !a.mayHaveCompleted(i) && !pw.Abrt {
 			return violated("not-aborted", "bar %d was never driven to completion, the container was cancelled at %s, yet Aborted=false", i, place)
 		}
+		if i < len(rr.listenerAtWait) {
+			for ord, n := range rr.listenerAtWait[i] {
+				if n != 1 {
+					return violated(fmt.Sprintf("listener-at-wait:%d", n), "shutdown listener %d of bar %d had been notified %d times at the moment Wait returned (it must be exactly once before Wait returns; cancel placed at %s)", ord, i, n, place)
+				}
+			}
+		}
 		for ord, n := range rr.listenerCalls[i] {
 			if got := int(n); got != 1 {
 				return violated(fmt.Sprintf("listener:%d", got), "shutdown listener %d of bar %d (wrapped) was notified %d times before Wait returned (cancel placed at %s)", ord, i, got, place)
@@ -635,6 +642,14 @@ func (a *analysis) oracleC05() verdict {
 		}
 	}
 	clipped := a.clippedPossible()
+	if !clipped {
+		// a bar whose predecessor has gone is no longer "left waiting behind another bar":
+		// it has to be drawn (the rules are C17's; here only the membership clauses count)
+		if v, _, _ := a.handoverCheck(); v != nil && (v.Key == "handover-gap" || v.Key == "late-successor-not-shown") {
+			v.Key = "queued-" + v.Key
+			return *v
+		}
+	}
 	for bi := range sc.Bars {
 		if a.rr.bar(bi) == nil {
 			continue
@@ -756,6 +771,15 @@ func (a *analysis) oracleC03() verdict {
 	tw := rr.tWaitRet.Load()
 	if tw == 0 {
 		return inconclusive("Wait did not return")
+	}
+	// "the output ends with a frame in which every bar ... appears exactly once": what
+	// a terminal shows at the end is the last frame only if every frame replaced its
+	// predecessor; replay the stream on the emulator (C04's invariant, judged here
+	// for the final screen)
+	if !sc.Delay {
+		if r := a.tapeCheck(); r.msg != "" {
+			return a.fv("tape:"+a.tapeKey(r.key), "the frames do not replace one another on the terminal, the final screen is not the last frame: %s", r.msg)
+		}
 	}
 	// no byte after Wait returned
 	for _, f := range a.frames {
